@@ -192,6 +192,15 @@ def steps_case(spec: dict) -> dict:
         out["raises"] = f"{type(ex).__name__}: {ex}"[:200]
     finally:
         _verif.set_sink(None)
+    try:   # without hooks: what Pulser requests and how many SequenceData the adapter yields
+        from emu_base.pulser_adapter import PulserData
+
+        np.random.seed(spec.get("seed", 0))
+        pd = PulserData(sequence=seq, config=cfg, dt=spec["dt"])
+        out["requested_reps"] = [int(s.reps) for s in pd.hamiltonian.noisy_samples]
+        out["yielded"] = sum(1 for _ in pd.get_sequences())
+    except Exception as ex:
+        out["direct_raises"] = f"{type(ex).__name__}: {ex}"[:200]
     runs = []
     cur = None
     for e in ev:
@@ -553,6 +562,10 @@ def run(ctx: Ctx) -> None:
         if "raises" in res:
             # the grid of this input is fine (checked above); why the run raises is another property's business
             run_raises[res["raises"]] = run_raises.get(res["raises"], 0) + 1
+            continue
+        if "yielded" in res and res["yielded"] != sum(res["requested_reps"]):
+            rep.violation("runs:not-as-often-as-requested:adapter", f"PulserData.get_sequences yields {res['yielded']} SequenceData, Pulser requests {res['requested_reps']} repetitions",
+                          {"spec": spec, "requested_reps": res["requested_reps"], "yielded": res["yielded"]})
             continue
         if not res.get("runs"):
             raise MachineryError(f"no seq_yield / *_new events recorded for {spec} (hooks missing?)")
